@@ -192,6 +192,7 @@ def sessions(seed=0, n_random=40):
             rest = {k: v for k, v in full.items() if k not in half}
             yield prog, requested, {}, full, None, None
             yield prog, requested, half, rest, None, None
+            yield prog, requested, {}, {k: '' for k in all_inputs}, None, None     # blank answers are answers
             # an invalid first answer to every integer question: prompt_input asks again
             retry = {k: (['not a number', v] if not k.split('.')[1].startswith('s') else v) for k, v in full.items()}
             yield prog, requested, {}, retry, None, None
